@@ -310,7 +310,7 @@ def grid_use(ctx, block):
                                       observed=list(gi.shape), expected=[n_paths, 1, 1], block=mini)
                         break
         models = [("naked", Naked(1), ["zeros"]), ("naked_prev", Naked(1), ["zeros", "prev_hedge"])]
-        if route in market.OPTION_KINDS and kind in ("brownian", "heston"):
+        if route in market.OPTION_KINDS and kind in ("brownian", "heston") and not (block.get("light") and kind == "heston"):
             m = BlackScholes(d)
             models.append(("bs", m, m.inputs()))
         for mname, model, inputs in models:
@@ -417,6 +417,8 @@ def resimulate(ctx, block):
     dtype = DT[block["dtype"]]
     eps = torch.finfo(dtype).eps
     names = [n for n in _features_for(kind, route) if n != "prev_hedge"]
+    if block.get("light"):
+        names = [n for n in names if n in TIME_FEATURES + ("underlier_spot", "log_moneyness", "volatility")]
     is_option = route in market.OPTION_KINDS
     torch.manual_seed(0)
     for hist in block["histories"]:
@@ -705,7 +707,7 @@ def _swap_world(block):
     dtA, dtB, dtC = block["dts"]
     A = market.primary("brownian", dtype=dtype, dt=dtA)
     B = market.primary(block.get("kindB", "heston"), dtype=dtype, dt=dtB)
-    B.simulate(n_paths=5, time_horizon=block["M"] * 2)
+    B.simulate(n_paths=5, time_horizon=7 * dtB)
     C = market.primary("brownian", dtype=dtype, dt=dtC, sigma=0.3)
     return {"A": A, "B": B, "C": C}
 
@@ -812,11 +814,10 @@ def swap(ctx, block):
             ctx.outcome((route, cur, T, n_paths, len(problems)))
             ctx.add("states", 1)
             for what, msg, obs, exp in problems:
-                ctx.violation(type(d).__name__ + " underlier replaced" if swapped else type(d).__name__ + ".simulate",
+                ctx.violation(type(d).__name__ + (".__setattr__" if swapped else ".simulate"),
                               f"{when}_{what}",
                               f"history {hist[:r + 1]} on {type(d).__name__}(maturity={M!r}); stocks A={type(stocks['A']).__name__}"
-                              f"(dt={stocks['A'].dt!r}), B={type(stocks['B']).__name__}(dt={stocks['B'].dt!r}, carries a "
-                              f"{tuple(stocks['B'].spot.shape) if cur != 'B' else 'previous'} path), C=BrownianStock(dt={stocks['C'].dt!r}); "
+                              f"(dt={stocks['A'].dt!r}), B={type(stocks['B']).__name__}(dt={stocks['B'].dt!r}, used before), C=BrownianStock(dt={stocks['C'].dt!r}); "
                               f"current underlier {cur} (dt={X.dt!r}, {T} points expected): {msg}",
                               observed=obs, expected=exp, block=mini)
             if problems:
@@ -888,13 +889,15 @@ def run(ctx):
         for kind in PRIMARIES:
             full = (kind == "brownian") or (ctx.thorough and kind not in SLOW)
             cases = all_pairs if full else small_pairs
+            if ctx.quick and kind == "brownian" and route not in ("european", "variance_swap"):
+                cases = slow_pairs      # the six classes share BaseDerivative.simulate; two of them see every pair
             for n_paths in ((2, 1) if kind == "brownian" else (2,)):
                 cs = small_pairs if (ctx.quick and n_paths == 1) else cases
                 for ch in _chunks(cs, 400):
                     blocks.append(("grid_steps", {"primary": kind, "route": route, "n_paths": n_paths, "cases": ch}))
     # a derivative with two underliers: every underlier gets the grid
     for kind in PRIMARIES:
-        cases = all_pairs if kind == "brownian" else small_pairs
+        cases = (slow_pairs if ctx.quick else all_pairs) if kind == "brownian" else small_pairs
         for ch in _chunks(cases, 400):
             blocks.append(("grid_steps", {"primary": kind, "route": "two_underliers", "n_paths": 2, "cases": ch}))
     # float32 instruments: the step count must not depend on the dtype
@@ -919,7 +922,7 @@ def run(ctx):
                 continue
             cases = small_pairs if (ctx.quick or kind in SLOW) else [c for c in all_pairs if c[3] <= 60]
             for ch in _chunks(cases, 200):
-                blocks.append(("grid_use", {"primary": kind, "route": route, "n_paths": 2, "cases": ch}))
+                blocks.append(("grid_use", {"primary": kind, "route": route, "n_paths": 2, "light": ctx.quick, "cases": ch}))
 
     # two underliers on different step sizes (both orders of every pair of dt symbols)
     Kc = ctx.pick(6, 24)
@@ -942,13 +945,16 @@ def run(ctx):
     for route in DERIVS:
         for kind in (["brownian"] if ctx.quick else ["brownian", "heston", "merton", "local_vol"]):
             for dt in hdts:
-                for dtype in (("float64",) if (ctx.quick and route != "european") else ("float64", "float32")):
-                    hs = hists if (route == "european" and kind == "brownian") or ctx.thorough else perms
+                if ctx.quick and route != "european" and dt == hdts[2]:
+                    continue
+                for dtype in (("float64",) if (ctx.quick and (route != "european" or dt != hdts[0])) else ("float64", "float32")):
+                    hs = hists if (route == "european" and kind == "brownian" and (ctx.thorough or dt == hdts[0])) or \
+                        (ctx.thorough and kind == "brownian") else perms
                     if kind != "brownian":
                         hs = perms
                     for ch in _chunks(hs, 64):
                         blocks.append(("resimulate", {"primary": kind, "route": route, "dt": dt, "dtype": dtype,
-                                                      "histories": ch}))
+                                                      "light": ctx.quick and route != "european", "histories": ch}))
     if ctx.quick:
         blocks.append(("resimulate", {"primary": "heston", "route": "european", "dt": 1 / 365, "dtype": "float64",
                                       "histories": perms}))
@@ -986,8 +992,8 @@ def run(ctx):
                 shist.append(list(h))
     ctx.alphabet("swap operations", ops)
     for route in DERIVS:
-        for dts3, M, kindB in ([(1 / 250, 1 / 365, 0.01), 30 / 365, "heston"], [(0.1, 0.25, 0.01), 0.6, "merton"]):
-            if ctx.quick and route not in ("european", "lookback", "variance_swap") and kindB == "merton":
+        for dts3, M, kindB in ([(1 / 250, 1 / 365, 0.01), 12 / 365, "heston"], [(0.1, 0.25, 0.01), 0.6, "merton"]):
+            if ctx.quick and route != "european" and kindB == "merton":
                 continue
             for ch in _chunks(shist, 64):
                 blocks.append(("swap", {"route": route, "M": M, "dts": list(dts3), "kindB": kindB, "dtype": "float64",
